@@ -170,7 +170,8 @@ def run_case(case, ch: Choices) -> RunResult:
     base = genrun.scratch_dir("verif-c19-")
     trace = ["world=%s shape=%s" % (world.get("id", "drawn"), json.dumps(world.get("shape")))]
     sdl = worlds.sdl_of(world)
-    token = "secret-%d" % ch.draw("env.token", 1000)
+    # the secret may itself look like a reference (bcrypt hashes start with $2y$...): it is substituted once, literally
+    token = ch.pick("env.tokenkind", ["secret-%d", "secret-%d", "$2y$10$abc%d", "$SIM_OTHER_%d"]) % ch.draw("env.token", 1000)
     vmode = ch.draw("cfg.verify", 3)
     verify = [False, True, True][vmode]
     remote_cfg = {"remote_schema_headers": {"Authorization": "$SIM_TOKEN", "X-Static": "plain value", "X-Dollar-Later": "a$b",
@@ -237,8 +238,12 @@ def run_case(case, ch: Choices) -> RunResult:
                 url = fault["url"]
             mc = worlds.materialize(world, root_c, remote_url=url, extra_cfg=remote_cfg)
             before = genrun.snapshot(root_c)
-            http = {"sdl": sdl, "fault": fault if fault and fault["kind"] != "bad_url" else None}
-            rc = genrun.run_child(root_c, mc["argv"], mc["targets"], env={"SIM_TOKEN": token}, http=http)
+            # a conformant endpoint may label its JSON body in several ways (application/graphql-response+json is the
+            # media type of the GraphQL-over-HTTP specification); the label is not part of the property
+            ctype = ch.pick("peer.ctype", ["application/json", "application/json", "application/json; charset=utf-8",
+                                           "application/graphql-response+json", "application/graphql-response+json; charset=utf-8", None])
+            http = {"sdl": sdl, "fault": fault if fault and fault["kind"] != "bad_url" else None, "content_type": ctype}
+            rc = genrun.run_child(root_c, mc["argv"], mc["targets"], env={"SIM_TOKEN": token, "SIM_OTHER_" + token.rsplit("_", 1)[-1]: "wrong-value"}, http=http)
             if rc.get("harness_failure"):
                 raise RuntimeError("child failed: %s" % rc.get("child_stderr"))
             exc = rc.get("exc") or {}
